@@ -87,6 +87,18 @@ fn enforce_constraints_fd<U: User, E: Engine<U>>(x: LTerm<U, E>) -> Goal<U, E> {
                     .into_iter()
                     .collect::<LTerm<U, E>>()
             };
+            // The variables left in the domain store only need a witness, and the witness
+            // search commits to the first one it finds: look for it in variable order, not in
+            // the hash order of the domain store, so that a constraint connecting such a
+            // variable to the answer reads the same on every run.
+            let bound_x = {
+                let mut keys: Vec<LTerm<U, E>> = bound_x.iter().cloned().collect();
+                keys.sort_by_key(|k| match k.as_ref() {
+                    LTermInner::Var(id, _) => Some(*id),
+                    _ => None,
+                });
+                keys.into_iter().collect::<LTerm<U, E>>()
+            };
             proto_vulcan!( onceo { force_ans(bound_x) } ).solve(engine, state)
         }
     ])
